@@ -9,7 +9,7 @@
    no triangle is degenerate, no directed edge is used twice and the reverse of every used directed edge is
    used too — i.e. a closed (boundaryless, 2-manifold-edged), consistently oriented surface. *)
 From PF Require Import Gen.Closed Gen.ClosedProofs Gen.FamilyProofs Gen.Sphere Gen.Hemisphere Gen.Cylinder Gen.Cube
-  Gen.CylinderProofs Gen.SphereProofs Gen.CubeProofs Gen.CylinderGeom Gen.SphereGeom Gen.CylinderVolume Gen.CylinderMono Gen.SphereVolume Gen.HemiVolume Gen.CubeClasses Gen.VolumeLimits Gen.CubeTableProofs Gen.Solids Gen.GenProofs.
+  Gen.CylinderProofs Gen.SphereProofs Gen.CubeProofs Gen.CylinderGeom Gen.SphereGeom Gen.CylinderVolume Gen.CylinderMono Gen.SphereVolume Gen.HemiVolume Gen.CubeClasses Gen.VolumeLimits Gen.CubeTableProofs Gen.Solids Gen.SphereDistinct Gen.GenProofs.
 From Coq Require Import Reals.
 Open Scope N_scope.
 
@@ -460,6 +460,14 @@ Theorem box_solid : forall w h d, 0 < w -> 0 < h -> 0 < d ->
   rvol6 (tri_pos (cubeQ_posR (w / 2) (h / 2) (d / 2)) cubeQ_idx) / 6 = w * h * d.
 Proof. exact Solids.box_solid. Qed.
 Print Assumptions box_solid.
+
+(* ---------- "once coincident positions are merged", welded UV sphere: nothing to merge ----------
+   with the generator's position formula no two of the (rows-1)*columns+2 vertices coincide, so the identity class map
+   sphere_cls is the coincidence relation of the real positions *)
+Theorem sphere_vertices_distinct : forall r c rad v w, (2 <= r)%N -> (1 <= c)%N -> 0 < rad ->
+  (v < sphere_nverts r c)%N -> (w < sphere_nverts r c)%N -> sph_posR r c rad v = sph_posR r c rad w -> v = w.
+Proof. exact SphereDistinct.sphere_vertices_distinct. Qed.
+Print Assumptions sphere_vertices_distinct.
 
 (* ---------- coincidence classes of the boxes derived from the real positions ---------- *)
 (* two of the 24 corners of the six-quad box are the same point exactly when cubeQ_cls merges them; the welded
